@@ -6,6 +6,7 @@ p = os.path.join(VERIF, "DESIGN.md")
 s = open(p).read()
 B, E = "<!-- BEGIN AS-BUILT -->", "<!-- END AS-BUILT -->"
 parts = []
+tail = ""
 d = os.path.join(VERIF, "design.d")
 def keyf(f):
     m = re.match(r"C(\d+)", f)
@@ -13,10 +14,13 @@ def keyf(f):
 for f in sorted(os.listdir(d), key=keyf):
     if f.endswith(".md"):
         t = open(os.path.join(d, f)).read().strip()
+        if f.startswith("ZZ-"):
+            tail = t
+            continue
         if not t.lstrip().startswith("#"):
             t = "### %s — as built\n\n%s" % (f[:-3], t)
         parts.append(t)
-body = B + "\n\n" + "\n\n".join(parts) + "\n\n" + E
+body = B + "\n\n" + "\n\n".join(parts) + "\n\n---------------------------------------------------------------------------------------------\n\n" + tail + "\n\n" + E
 if B in s:
     s = s[:s.index(B)] + body + s[s.index(E) + len(E):]
 else:
